@@ -612,13 +612,23 @@ func c15CaseRecords(c *Case, nf int) []*c15Rec {
 			r.RawLen = int(c.Z[1+2*i])
 			r.Unesc = c.Z[2+2*i] != 0
 		}
+		if c.Kind == 1 {
+			// long values: every field is a unit repeated Z[1+2n+i*nf+j] times
+			for j := 0; j < nf; j++ {
+				if k := 1 + 2*n + i*nf + j; k < len(c.Z) && c.Z[k] >= 0 {
+					r.Fields[j] = strings.Repeat(r.Fields[j], int(c.Z[k]))
+				} else {
+					r.Fields[j] = ""
+				}
+			}
+		}
 		rs = append(rs, r)
 	}
 	return rs
 }
 
 func c15Run(c *Case) (out string, fails []Fail) {
-	if c.Kind != 0 || len(c.S) < 2 {
+	if (c.Kind != 0 && c.Kind != 1) || len(c.S) < 2 {
 		return "badprog", nil
 	}
 	prog, ok := c15Decode(c.S[0])
